@@ -260,3 +260,46 @@ func reattachConfigKeepsTest(p *pkgs) (bool, string) {
 	}
 	return false, "no `if " + cfg + " != nil` branch"
 }
+
+func init() {
+	registerExtractor("rpcserver", []string{"GoPlugin.Model.Lifecycle"}, extractRPCServerDone)
+}
+
+// extractRPCServerDone: every call `<x>.done()` (the method that closes RPCServer.DoneCh) sits in controlServer.Quit
+// or is Serve's own deferred call for a failed listener — never in per-connection code.
+func extractRPCServerDone(p *pkgs, f *facts) {
+	callers := map[string]int{}
+	for _, file := range p.files {
+		for _, d := range file.Decls {
+			fd, ok := d.(*ast.FuncDecl)
+			if !ok || fd.Body == nil {
+				continue
+			}
+			name := fd.Name.Name
+			if r := recvTypeName(fd); r != "" {
+				name = r + "." + name
+			}
+			ast.Inspect(fd.Body, func(n ast.Node) bool {
+				if ce, ok := n.(*ast.CallExpr); ok && len(ce.Args) == 0 {
+					if se, ok := ce.Fun.(*ast.SelectorExpr); ok && se.Sel.Name == "done" {
+						callers[name]++
+					}
+				}
+				return true
+			})
+		}
+	}
+	// allowed: Control.Quit, and Serve's own `defer s.done()` (the listener failed: nothing can connect any more)
+	only := callers["controlServer.Quit"] >= 1
+	for k := range callers {
+		if k != "controlServer.Quit" && k != "RPCServer.Serve" {
+			only = false
+		}
+	}
+	if p.fn("RPCServer", "done") == nil {
+		f.miss = append(f.miss, "RPCServer.done")
+		only = false
+	}
+	f.lean = append(f.lean, fmt.Sprintf("def rpcServer : Lifecycle.ServerParams := ⟨%s⟩", leanBool(only)))
+	f.set("rpcServer", map[string]interface{}{"doneOnlyOnQuit": only, "doneCallers": fmt.Sprint(callers)})
+}
